@@ -142,6 +142,17 @@ def run(ctx, out):
             tl = b"\x06" + R.ber_len(len(inner)) + inner
             body = (b"\x00\x00\x00" if name.endswith("WriteFile") else b"") + tl
             add(f"dec {name} {(bytes(s['ctrl']) + R.length_prefix('adpu', body) + body).hex()}", "large")
+    # transport level (zvt/src/io.rs): headers announcing 0..3, 250..260 and 65500..65535 body bytes, with the whole body, half of it, or none
+    pl = "sequences::PrintSystemConfigurationResponse"
+    for n in list(range(0, 4)) + list(range(250, 261)) + list(range(65500, 65536)) + [32767, 32768, 65280]:
+        body = bytes([0x41]) * n
+        hdr = bytes([0x06, 0xd1]) + R.length_prefix("adpu", body)
+        for got in sorted({n, n // 2, 0}):
+            add(f"read {pl} {C.hexs(hdr)}|{C.hexs(body[:got]) if got else '-'}".replace("|-", ""), "transport")
+    for a in (0x00, 0x01, 0xfe, 0xff):
+        for b in (0x00, 0x01, 0xfa, 0xfb, 0xfc, 0xfd, 0xfe, 0xff):
+            add(f"read {pl} 06d1ff{a:02x}{b:02x}", "transport")
+            add(f"read {pl} 06d1ff{a:02x}|{b:02x}4141", "transport")
     # de-duplicate
     uniq, ukinds = [], []
     for o, k in zip(ops, kinds):
@@ -157,9 +168,10 @@ def run(ctx, out):
         out.count(kd + "/" + cls)
         if not r.startswith("ok"):
             out.nontrivial.add(o)
-        if r in BAD or r.startswith("alloc-exceeded"):
-            out.oracle_failures.append({"op": o[:400], "observed": r, "expected": "ok … | err …", "key": o[:160],
-                                        "what": "decoder " + {"panic": "panics", "died": "aborts the process", "hang": "does not return", "slow": "needs more than 5 s"}.get(r, "allocates beyond a small multiple of its input") + f" ({kd})"})
+        bad = next((x.split()[0] for x in r.split(" ; ") if x.split() and x.split()[0] in BAD), None)
+        if bad or r.startswith("alloc-exceeded"):
+            out.oracle_failures.append({"op": o[:400], "observed": r[-200:], "expected": "ok … | err …", "key": o[:160],
+                                        "what": ("packet reader " if kd == "transport" else "decoder ") + {"panic": "panics", "died": "aborts the process", "hang": "does not return", "slow": "needs more than 5 s"}.get(bad, "allocates beyond a small multiple of its input") + f" ({kd})"})
         elif kd == "calendar-impossible" and r.startswith("ok"):
             out.oracle_failures.append({"op": o[:400], "observed": r[:200], "expected": "err …", "key": o[:160],
                                         "what": "an impossible date / time of day is accepted: a number that does not fit its field must be an error, not a silently narrowed value"})
@@ -168,6 +180,6 @@ def run(ctx, out):
                                         "what": f"debug and release builds decode differently ({kd}): a number that does not fit its field must be an error, not a wrapped value"})
     out.rule = (f"every body of length <= 2 for all {len(cmds)} command decoders, {len(plain)} container decoders and {len(enums)} reply parsers (length 2: {'all 65536' if thorough else 'a 52x47 boundary grid'}); "
                 f"corpus = {len(caps)} captured blobs + {per} canonical packets per type: every truncation, single-byte substitutions ({'all 256' if thorough else '24 boundary'} values per offset), structure-aware mutations "
-                "(length edits, 81/82/FF/1F insertions, splices, deletions, 99.. digit runs, APDU length edits), calendar values (incl. hours / years that are valid only modulo 2^8 .. 2^32), 64 KiB inputs; dev (overflow checks) and release builds answer identically; "
+                "(length edits, 81/82/FF/1F insertions, splices, deletions, 99.. digit runs, APDU length edits), calendar values (incl. hours / years that are valid only modulo 2^8 .. 2^32), 64 KiB inputs; the packet reader (io.rs) on headers announcing 0..3, 250..260, 65500..65535 bytes with full / half / no body; dev (overflow checks) and release builds answer identically; "
                 "allocation/time watchdog. non-trivial = distinct inputs that are rejected with an error")
     out.samples = [ops[5], ops[len(ops) // 2][:200], {"op": ops[-1][:80] + "…", "impl": impl[-1][:80]}]
